@@ -7,6 +7,7 @@ RULE = ("random well-typed EEMS models over the built-in CSV library (2-4 intege
         "result compared with an independent exact reference interpreter, with the same model in another file order without "
         "metadata (bit-identical), and with the Coq model (scheduler model instantiated with the cell semantics); plus the "
         "abstract probe-library DAG runs of C01. non-trivial = distinct model with >= 2 commands and >= 1 reference")
+RULE += (' Also the probe-library programs of C01 (file orders, API-built and API-edited programs); tables hold values next to the missing-value marker; CvtToFuzzy with one threshold given and a Direction.')
 TRUSTED = ["exact reference interpreter (drivers/c02_driver.py + cells_common.ref_eval)",
            "discontinuous commands (Binary, Cat, MeanToMid, ZScore) are only fed values computed exactly in floating point, so "
            "that rounding cannot flip a comparison"]
